@@ -298,6 +298,9 @@ def stream_codec(I, R, r, n):
             R.add(Case({'op': 'wrap', 'width': ww, 'text': wtext}, kind='codec', tags=('wrap',),
                        impl=wire.enc_list(textwrap.wrap(wtext, width=ww, break_long_words=False, break_on_hyphens=False))),
                   'wrap\t%d\t%s' % (ww, wire.enc(wtext)))
+            R.add(Case({'op': 'wrapw', 'width': ww, 'text': wtext}, kind='codec', tags=('wrapw',),
+                       impl=wire.enc_list(textwrap.wrap(wtext, width=ww, break_long_words=False, break_on_hyphens=False))),
+                  'wrapw\t%d\t%s' % (ww, wire.enc(wtext)))
         rp = repr(s)
         back = I.evallit(rp)
         ok = (back == canon_res('ok', s))
